@@ -251,7 +251,7 @@ if req.get("start_method"):
 cnt = Counter()
 for sd in req["seeds"]:
     cfg = MazeDatasetConfig(name="w", grid_n=req["n"], n_mazes=req["per_seed"], seed=sd, maze_ctor=GENERATORS_MAP["gen_wilson"], endpoint_kwargs=req["endpoint"])
-    kw = dict(gen_parallel=True, pool_kwargs=dict(processes=req["procs"])) if req["procs"] else dict()
+    kw = dict(gen_parallel=True, pool_kwargs=dict(processes=req["procs"], **(req.get("pool_extra") or dict()))) if req["procs"] else dict()
     ds = MazeDataset.generate(cfg, **kw)
     assert len(ds) == req["per_seed"], len(ds)
     for m in ds.mazes:
@@ -260,19 +260,19 @@ print("RESULT" + json.dumps(cnt))
 """
 
 
-def sample_datasets(n: int, seeds, per_seed: int, procs: int, endpoint: dict, start_method=None) -> Counter:
+def sample_datasets(n: int, seeds, per_seed: int, procs: int, endpoint: dict, start_method=None, pool_extra=None) -> Counter:
     """mazes as datasets hand them out (serial, or generated by a pool of `procs` workers), in a fresh top-level interpreter"""
     import json
 
-    out = core.run_python(_DATASET_CODE.format(verif=core.VERIF_DIR), stdin=json.dumps({"n": n, "seeds": list(seeds), "per_seed": per_seed, "procs": procs, "endpoint": endpoint, "start_method": start_method}), timeout=1500)
+    out = core.run_python(_DATASET_CODE.format(verif=core.VERIF_DIR), stdin=json.dumps({"n": n, "seeds": list(seeds), "per_seed": per_seed, "procs": procs, "endpoint": endpoint, "start_method": start_method, "pool_extra": pool_extra}), timeout=1500)
     line = next(ln for ln in out.splitlines() if ln.startswith("RESULT"))
     return Counter(json.loads(line[len("RESULT"):]))
 
 
 def check_datasets(case: dict):
     """replay entry for the dataset route"""
-    cnt = sample_datasets(case["n"], case["seeds"], case["per_seed"], case["procs"], case["endpoint"], case.get("start_method"))
-    evaluate(case["n"], case["n"], cnt, f"datasets procs={case['procs']} endpoint={case['endpoint']} start_method={case.get('start_method')}")
+    cnt = sample_datasets(case["n"], case["seeds"], case["per_seed"], case["procs"], case["endpoint"], case.get("start_method"), case.get("pool_extra"))
+    evaluate(case["n"], case["n"], cnt, f"datasets procs={case['procs']} endpoint={case['endpoint']} start_method={case.get('start_method')} pool={case.get('pool_extra')}")
     return {"nt": True, "labels": ["datasets"]}
 
 
@@ -282,13 +282,15 @@ def _run_datasets(total: int):
 
         stats, fails = Stats(), []
         variants = [("serial", 0, {}, None), ("serial-deadends", 0, {"deadend_start": True, "deadend_end": True}, None), ("pool-of-4", 4, {}, None),
-                    ("pool-of-3-deadend-start", 3, {"deadend_start": True}, None), ("pool-of-4-spawned-workers", 4, {}, "spawn")]
+                    ("pool-of-3-deadend-start", 3, {"deadend_start": True}, None), ("pool-of-4-spawned-workers", 4, {}, "spawn"),
+                    # further pool options a caller may pass through pool_kwargs: workers that are replaced after a number of tasks
+                    ("pool-of-2-workers-replaced-every-25-tasks", 2, {}, None, {"maxtasksperchild": 25})]
         cases = []
-        for k, (nm, procs, ep, sm) in enumerate(variants):
+        for k, (nm, procs, ep, sm, *px) in enumerate(variants):
             seeds = [int(core.derive_seed(seed_val, "ds", nm, j) % (2**31)) for j in range(4 if sm is None else 2)]
-            cases.append((nm, {"n": 3, "seeds": seeds, "per_seed": total // len(seeds), "procs": procs, "endpoint": ep, "start_method": sm}))
+            cases.append((nm, {"n": 3, "seeds": seeds, "per_seed": total // len(seeds), "procs": procs, "endpoint": ep, "start_method": sm, "pool_extra": px[0] if px else None}))
         with concurrent.futures.ThreadPoolExecutor(max_workers=len(cases)) as ex:
-            results = list(ex.map(lambda c: sample_datasets(c[1]["n"], c[1]["seeds"], c[1]["per_seed"], c[1]["procs"], c[1]["endpoint"], c[1].get("start_method")), cases))
+            results = list(ex.map(lambda c: sample_datasets(c[1]["n"], c[1]["seeds"], c[1]["per_seed"], c[1]["procs"], c[1]["endpoint"], c[1].get("start_method"), c[1].get("pool_extra")), cases))
         summaries = {}
         for (nm, case), cnt in zip(cases, results):
             try:
